@@ -498,7 +498,24 @@ pub fn check_c09(scn: &Scenario) -> Checked {
             continue;
         }
         let Some(op) = op_of(o) else { continue };
-        let is_original = o.original;
+        // which instance this is follows from the history alone: slot 0 holds what Unimock::new
+        // returned, every other slot was filled by a clone operation (the instance's own idea of
+        // itself, read through the hook, is only counted when it differs)
+        let slot_of = match &op {
+            Op::Drop { slot } | Op::Verify { slot } | Op::Report { slot } | Op::NoVerifyInDrop { slot } => Some(*slot),
+            _ => None,
+        };
+        let is_original = match slot_of {
+            Some(slot) => {
+                let by_history = slot == 0;
+                if matches!(o.original, Some(claimed) if claimed != by_history) {
+                    // not a verdict by itself: the clauses below judge what the instance *does*
+                    *stats.probes.entry("instance_disagrees_with_history_about_being_the_original".into()).or_default() += 1;
+                }
+                Some(by_history)
+            }
+            None => o.original,
+        };
         match (&op, is_original) {
             (Op::Clone { .. }, _) => {
                 if !matches!(o.result, OpResult::Done) {
